@@ -10,5 +10,8 @@ OBLIGATIONS = [
   Ob('C12.methods_agree', H, 'h_methods_agree', tier='quick', unwind=6, defines={'NCOMP': 1}, max_alloc=160, uf_float=True,
      bound='1 point x 1 component, q symbolic 1..30, every float bit pattern for origin, range and the coordinate (UF floats, refined with exact semantics on a counterexample)',
      covers='AttributeQuantizationTransform::TransformAttribute -> both GeneratePortableAttribute overloads (all points / point id list), Quantizer::Init/QuantizeFloat'),
+  Ob('C12.init_explicit', 'C12/qinit.cc', 'h_init_explicit', tier='quick', unwind=6, unwindset=['strlen.0:24'], defines={'_GLIBCXX_ASSERTIONS': 1}, max_alloc=64, timeout=900,
+     bound='2 float attributes of arbitrary semantic type and 1..3 components, explicit quantization requested for either of them, ARBITRARY option values under every key 0..3 (bits, origin, range, set flags); option store replaced by a table model',
+     covers='SequentialQuantizationAttributeEncoder::Init, SequentialIntegerAttributeEncoder::Init, SequentialAttributeEncoder::Init, GetPredictionMethodFromOptions, AttributeQuantizationTransform::SetParameters on real PointCloud / PointAttribute / encoder objects'),
 ]
 META = {}
